@@ -85,3 +85,58 @@ class ForWhereSpec:
             ex.assume(cc)
         for f in foralls:
             ex.add_forall(f)
+
+
+class ForIndexSpec:
+    """`for x in seq:` where seq has a symbolic length and can be indexed (an Arr, or np.split chunks): invariant Inv(k) over the
+    iteration counter k.  Obligations: Inv(0); for arbitrary 0 <= k < len: Inv(k) and the body with x = seq[k] give Inv(k+1);
+    after the loop Inv(len)."""
+    def __init__(self, name, havoc, inv, on_iteration=None):
+        self.name = name
+        self.havoc = havoc
+        self.inv = inv
+        self.on_iteration = on_iteration
+
+    def run(self, ex, st, env):
+        it = ex.ev(st.iter, env)
+        if isinstance(it, (list, tuple)):
+            # concrete number of items: plain unrolling, no invariant needed
+            for x in it:
+                ex.assign(st.target, x, env)
+                ex.block(st.body, env)
+            return
+        if hasattr(it, 'sym_len'):
+            n, item = it.sym_len, it.sym_item
+        elif isinstance(it, Arr) and it.ndim >= 1:
+            from . import arrays
+            n, item = tonum(it.shape[0]), (lambda k: arrays.getitem(ex, it, k))
+        else:
+            raise Unsupported(f'{self.name}: loop iterable {it!r} is not indexable')
+        conj, foralls = self.inv(ex, env, 0)
+        ex.obls.append((self.name + '.init', list(ex.pc), list(conj), list(foralls), 'invariant holds on loop entry', list(ex.foralls)))
+        self.havoc(ex, env)
+        if ex.choice(self.name + '.iter'):
+            k = ex.newvar('k_loop', 'int')
+            ex.assume(z3.And(k >= 0, k < n))
+            ex.add_index_term(k)
+            conj, foralls = self.inv(ex, env, k)
+            for cc in conj:
+                ex.assume(cc)
+            for f in foralls:
+                ex.add_forall(f)
+            ex.assign(st.target, item(k), env)
+            ex.__dict__.setdefault('loop_iter', {})[self.name] = k
+            nev = len(ex.events)
+            try:
+                ex.block(st.body, env)
+            except (Brk, Cont):
+                raise Unsupported('break/continue inside a for loop under contract')
+            ex.__dict__.setdefault('loop_events', {})[self.name] = (k, ex.events[nev:], dict((a, b) for a, b in env.items() if not a.startswith('__')))
+            conj2, foralls2 = self.inv(ex, env, k + 1)
+            ex.obls.append((self.name + '.preserve', list(ex.pc), list(conj2), list(foralls2), 'one more iteration preserves the invariant', list(ex.foralls)))
+            raise PathEnd()
+        conj, foralls = self.inv(ex, env, n)
+        for cc in conj:
+            ex.assume(cc)
+        for f in foralls:
+            ex.add_forall(f)
